@@ -74,7 +74,7 @@ SKELETONS = {
         parents=(-1, 0, -1), joints=("slidehinge", "hinge", "free"), axis=[1, 2, 0], anchor=[1, 0, 0], frame=[1, 2, 1],
         geom=("capsule", "box", "sphere"),
         passive=['damping="0.3 0.1" stiffness="2"', 'damping="0.2" stiffness="1.5" springref="0.2"', ""],
-        lim_bodies=(0,), fl_bodies=(1, 2), fl_value=("0", "0.3", "0.2"),
+        lim_bodies=(0,), fl_bodies=(1, 2), fl_value=("0", "25", "3"),
         tendon=("fixed", "j0_1", 1.3, "j1_0", -0.7),
         eq=dict(connect='<connect body1="b1" body2="b2" anchor="0.05 0.02 -0.03" solref="0.03 1.1"/>',
                 weld='<weld body1="b0" solref="0.025 0.9" torquescale="0.7"/>',
@@ -88,7 +88,7 @@ SKELETONS = {
         parents=(-1, 0), joints=("ball", "hinge2"), axis=[0, 1], anchor=[1, 0], frame=[2, 1],
         geom=("ellipsoid", "cylinder"),
         passive=['damping="0.25" stiffness="1"', 'damping="0.2 0.05" stiffness="1.5"'],
-        lim_bodies=(0, 1), fl_bodies=(0, 1), fl_value=("0.25", "0.35"),
+        lim_bodies=(0, 1), fl_bodies=(0, 1), fl_value=("0.25", "20"),
         tendon=("spatial", "sw", "s1"),
         eq=dict(connect='<connect body1="b1" anchor="0.03 -0.02 0.05"/>',
                 weld='<weld body1="b1" body2="b0" solref="0.03 1"/>',
@@ -103,7 +103,7 @@ SKELETONS = {
         parents=(-1, -1, -1), joints=("hinge", "slide", "free"), axis=[2, 1, 0], anchor=[0, 1, 0], frame=[1, 2, 1],
         geom=("box", "capsule", "ellipsoid"),
         passive=['damping="0.2" stiffness="1"', 'damping="0.3" stiffness="3"', ""],
-        lim_bodies=(0, 1), fl_bodies=(0, 2), fl_value=("0.3", "0", "0.15"),
+        lim_bodies=(0, 1), fl_bodies=(0, 2), fl_value=("15", "0", "2"),
         tendon=("fixed", "j0_0", 0.9, "j1_0", 1.6),
         eq=dict(connect='<connect body1="b0" body2="b1" anchor="0.1 0.05 0.02"/>',
                 weld='<weld body1="b2" body2="b1" solref="0.03 1" relpose="0.3 0.1 0.2 0.9 0.1 -0.3 0.2"/>',
@@ -171,7 +171,7 @@ def build_xml(skel: str, atoms, eqkind) -> str:
         t = S["tendon"]
         tat = 'limited="true" range="-1 1" margin="%g" solreflimit="0.025 1.2"' % TEN_MARGIN
         if "F" in atoms:
-            tat += ' frictionloss="0.15" solreffriction="0.03 1"'
+            tat += ' frictionloss="25" solreffriction="0.03 1"'
         if t[0] == "fixed":
             sections += ('  <tendon><fixed name="t0" %s><joint joint="%s" coef="%g"/><joint joint="%s" coef="%g"/></fixed>'
                          '</tendon>\n' % (tat, t[1], t[2], t[3], t[4]))
@@ -371,7 +371,26 @@ class Host:
                 return "contact %s not generated" % atom
             if abs(float(con[i]["dist"]) - dist) > tol:
                 return "contact %s dist %.3g != %.3g" % (atom, float(con[i]["dist"]), dist)
+        # limits: violated / inside-margin ones have a row, inactive ones do not
+        nefc = int(self.d.nefc)
+        t = np.array(self.d.efc_type[:nefc])
+        nj = int(np.sum(t == CNSTR_LIMIT_JOINT))
+        nt = int(np.sum(t == CNSTR_LIMIT_TENDON))
+        wj = sum(1 for name, s in info["limit"] if name.startswith("jnt") and s != 2)
+        wt = sum(1 for name, s in info["limit"] if name.startswith("ten") and s != 2)
+        if (nj, nt) != (wj, wt):
+            return "limit rows (%d joint, %d tendon) != intended (%d, %d)" % (nj, nt, wj, wt)
         return None
+
+
+def report(part, key, what, replay=None):
+    """part.violation with per-worker de-duplication by key: core.Part keeps at most 50 entries, so a root cause that fires
+    on every state must not crowd out a different key found later in the same chunk."""
+    seen = part.setdefault("_seen_keys", set())
+    if key in seen:
+        return
+    seen.add(key)
+    part.violation(key, what, replay)
 
 
 def _unit(v):
